@@ -69,8 +69,8 @@ OpOfEvent ==
     [] e.op \in {"pop_if", "pop_min_if", "pop_max_if"} -> [op |-> e.op, yes |-> e.yes, set |-> SetOf(e.set)]
     [] e.op \in {"retain", "retain_mut"} ->
          [op |-> e.op, keep |-> {e.calls[i].k : i \in {j \in 1..Len(e.calls) : e.calls[j].keep}}, set |-> SetFn(e.calls)]
-    [] e.op = "iter_mut" -> [op |-> e.op, n |-> Len(e.ys), set |-> SetFn(e.ys), forget |-> e.forget]
-    [] e.op \in {"extend", "from_vec", "from_iter"} ->
+    [] e.op = "iter_mut" -> [op |-> e.op, n |-> e.nf, nb |-> e.nb, set |-> SetFn(e.ys), forget |-> e.forget]
+    [] e.op \in {"extend", "from_vec", "from_iter", "de"} ->
          [op |-> e.op, pairs |-> PairSeq(e.pairs), hint |-> IF "hint" \in DOMAIN e THEN e.hint ELSE <<>>]
     [] OTHER -> [op |-> e.op]
 Other(kind) == IF kind = "pq" THEN "dpq" ELSE "pq"
@@ -97,24 +97,41 @@ StepReset ==
   /\ e.op = "reset"
   /\ abs' = [x \in {} |-> 0] /\ con' = [x \in {} |-> 0] /\ ord' = [x \in {} |-> TRUE]
 
-\* creation of a queue: new, from_vec, from_iter, de
+\* creation of a queue: new, from_vec, from_iter, de (JSON), roundtrip (serialize src, deserialize as q)
 StepCreate ==
-  /\ e.op \in {"new", "from_vec", "from_iter", "de"}
+  /\ e.op \in {"new", "from_vec", "from_iter", "de", "roundtrip"}
   /\ LET q == e.q
-         ok == e.panic = 0 /\ (e.op # "de" \/ e.ret = "ok")
+         ok == e.panic = 0 /\ (e.op \notin {"de", "roundtrip"} \/ e.ret = "ok")
          res == IF ok /\ e.hs = 1 /\ SnapWF(e.snap) THEN SnapProj(e.snap) ELSE EmptyMap
          tags == (IF e.panic = 1 THEN {"panic"} ELSE {})
+                 \cup (IF e.op = "roundtrip" /\ e.panic = 0
+                       THEN T(e.ret # "ser_err", "ser_err") \cup T(e.ret # "de_err", "de_err")
+                            \cup T(e.ret = "ser_err" \/ BagOK(abs[e.src], e.listing), "ser_listing")
+                       ELSE {})
                  \cup (IF ~ok THEN {} ELSE
                        (IF e.hs = 1 /\ ~SnapWF(e.snap) THEN {"wf"} ELSE {})
                        \cup (IF e.hs = 1 /\ SnapWF(e.snap) /\ ~SnapOrd(e.snap, e.kind) THEN {"order"} ELSE {})
                        \cup (CASE e.op = "new"       -> T(res = EmptyMap, "contents") \cup T(e.cap >= e.reqcap, "cap_low")
                                [] e.op = "from_vec"  -> T(res = N_fromvec(e), "bulk_contents")
                                [] e.op = "from_iter" -> T(OK_fromiter(e, res), "bulk_contents")
-                               [] e.op = "de"        -> T(OK_de(e, res), "de_contents")))
+                               [] e.op = "de"        -> T(OK_de(e, res), "de_contents")
+                               [] e.op = "roundtrip" -> T(res = abs[e.src], "de_roundtrip")))
      IN /\ Report(tags, e.kind)
-        /\ (IF ok /\ e.op \in {"from_vec", "from_iter"} THEN Drift(ConNew(e.kind)) ELSE TRUE)
+        /\ (IF ok /\ e.op \in {"from_vec", "from_iter", "de"} THEN Drift(ConNew(e.kind))
+            ELSE IF ok /\ e.op = "roundtrip" THEN Drift(Apply(e.kind, con[e.src], [op |-> "roundtrip"], Inf)) ELSE TRUE)
         /\ IF ok THEN /\ abs' = Upd(abs, q, res) /\ con' = Upd(con, q, ConOrElse(Empty)) /\ ord' = Upd(ord, q, TRUE)
            ELSE /\ abs' = Del(abs, q) /\ con' = Del(con, q) /\ ord' = Del(ord, q)
+
+\* deserialization from serde tokens: the value is only observed through its snapshot (e.dsnap)
+StepDeTokens ==
+  /\ e.op = "de_tokens"
+  /\ LET tags == IF e.panic = 1 THEN {"panic"}
+                 ELSE IF e.ret # "ok" THEN {}
+                 ELSE IF ~SnapWF(e.dsnap) THEN {"wf"}
+                 ELSE (IF SnapOrd(e.dsnap, e.tokkind) THEN {} ELSE {"order"})
+                      \cup T(OK_de(e, SnapProj(e.dsnap)), "de_contents")
+     IN Report(tags, e.tokkind)
+  /\ UNCHANGED <<abs, con, ord>>
 
 StepClone ==
   /\ e.op = "clone"
@@ -182,7 +199,7 @@ StepBalance ==
   /\ UNCHANGED <<abs, con, ord>>
 
 StepOp ==
-  /\ e.op \notin {"reset", "new", "from_vec", "from_iter", "de", "clone", "drop", "forget_queue",
+  /\ e.op \notin {"reset", "new", "from_vec", "from_iter", "de", "roundtrip", "de_tokens", "clone", "drop", "forget_queue",
                   "eq", "ne", "append", "iter_calls", "into_calls", "balance"}
   /\ LET q == e.q
          a == abs[q]
@@ -198,7 +215,7 @@ StepOp ==
 
 Init == l = 1 /\ abs = [x \in {} |-> 0] /\ con = [x \in {} |-> 0] /\ ord = [x \in {} |-> TRUE]
 Next == /\ l <= Len(Rec) /\ l' = l + 1
-        /\ (StepReset \/ StepCreate \/ StepClone \/ StepDrop \/ StepEq \/ StepAppend \/ StepIterCalls \/ StepBalance \/ StepOp)
+        /\ (StepReset \/ StepCreate \/ StepDeTokens \/ StepClone \/ StepDrop \/ StepEq \/ StepAppend \/ StepIterCalls \/ StepBalance \/ StepOp)
 
 Accepted == IF TLCGet("stats").diameter - 1 = Len(Rec) THEN PrintT(<<"CONSUMED", Len(Rec)>>)
             ELSE Print(<<"STUCK", TLCGet("stats").diameter, Rec[TLCGet("stats").diameter].op>>, FALSE)
